@@ -325,6 +325,15 @@ def h_nonfinite(reg, cached):
         res2 = a.sky_within(real_np.degrees(ra), real_np.degrees(dec), degin=True)
         tag = 'sky_within non-finite[all-sky depth 1,cache=%d]' % cached
         c.oblige(tag + ':never inside, whatever the region', z3.And([z3.Not(core.lb(x)) for x in list(res) + list(res2)]))
+        # one call that mixes undefined positions with real ones: the real ones are answered as if asked alone
+        ea = alpha(a, uni)
+        pts = [0, 17, 40]
+        pr, pd = centres(1, pts)
+        mra = real_np.array([nan, pr[0], pr[1], inf, pr[2]])
+        mdec = real_np.array([0.2, pd[0], pd[1], 0.1, pd[2]])
+        mres = a.sky_within(mra, mdec, degin=False)
+        c.oblige(tag + ':finite positions in a call that also holds non-finite ones are answered normally',
+                 z3.And([core.lb(mres[1]) == ea[0], core.lb(mres[2]) == ea[17], core.lb(mres[4]) == ea[40], z3.Not(core.lb(mres[0])), z3.Not(core.lb(mres[3]))]))
         return tag
     return h
 
@@ -444,6 +453,13 @@ def replay_case(w):
             bad_ = a.sky_within(numpy.array([numpy.nan, 0.1, numpy.nan, numpy.inf]), numpy.array([0.1, numpy.inf, numpy.nan, 0.3]), degin=False)
             if any(bool(x) for x in bad_):
                 return True, 'non-finite-inside', 'sky_within answers True for a non-finite position (levels %s)' % a_lv
+            if len(pts) >= 2:
+                mixr = numpy.concatenate([[numpy.nan], ph[:6], [numpy.inf]])
+                mixd = numpy.concatenate([[0.1], (numpy.pi / 2 - th)[:6], [0.2]])
+                gm = a.sky_within(mixr, mixd, degin=False)
+                for p, g in zip(pts[:6], gm[1:-1]):
+                    if bool(g) != (p in ea):
+                        return True, 'membership-mixed', 'sky_within on a vector holding NaN/inf and the centre of depth-%d pixel %d answers %s for that pixel, which is %sin the region (levels %s)' % (D, p, bool(g), '' if p in ea else 'not ', a_lv)
         elif op == 'query':
             want = ea
             area = a.get_area(degrees=False)
